@@ -94,7 +94,7 @@ def shard_threaded(sh: Shard, seed):
     r = rng("C16wt", seed)
     rig = TRig(r, snapshot="inYT-Pump1Lo-2020-12-13 11_19_35.snapshot", sim_cls=make_model_class())
     try:
-        if not rig.connect(facade=True, timeout=90, quiet_refresh=False):
+        if not rig.connect(facade=True, timeout=90):
             sh.inconc("threaded facade did not connect")
             return
         spa, facade, s = rig.spa, rig.facade, rig.s
@@ -108,7 +108,7 @@ def shard_threaded(sh: Shard, seed):
             facade.water_care.set_mode(i % 5)
             rig.sim_say(P.report_changes(rig.sim._socket, [(400 + i, bytes([i, i]))], parms=rig.client_parms))
             if i % 2 == 0:
-                spa.refresh()
+                type(spa).refresh(spa)  # the class's refresh (the rig silences the ping thread's periodic one)
             facade.water_care._water_care_handler = None
             facade.water_care.update()
             facade._reminders.update()
